@@ -27,7 +27,10 @@ fn expand_brace_expr_or_text(
     }
 }
 
-#[expect(clippy::cast_possible_truncation)]
+/// The longest number sequence a brace expression may generate.
+const MAX_SEQUENCE_ELEMENTS: u128 = i32::MAX as u128;
+
+#[expect(clippy::cast_possible_wrap)]
 fn expand_brace_expr_member(bem: word::BraceExpressionMember) -> Box<dyn Iterator<Item = String>> {
     match bem {
         word::BraceExpressionMember::NumberSequence {
@@ -35,25 +38,30 @@ fn expand_brace_expr_member(bem: word::BraceExpressionMember) -> Box<dyn Iterato
             end,
             increment,
         } => {
-            let mut increment = increment.unsigned_abs() as usize;
-            if increment == 0 {
-                increment = 1;
+            let step = u128::from(increment.unsigned_abs()).max(1);
+            let span = (i128::from(end) - i128::from(start)).unsigned_abs();
+            let count = span / step + 1;
+
+            // Like bash, refuse to generate a sequence too long to be materialized; the
+            // expression is left as literal text.
+            if count > MAX_SEQUENCE_ELEMENTS {
+                let literal = if increment == 1 {
+                    std::format!("{{{start}..{end}}}")
+                } else {
+                    std::format!("{{{start}..{end}..{increment}}}")
+                };
+                return Box::new(std::iter::once(literal));
             }
 
-            if start <= end {
-                Box::new((start..=end).step_by(increment).map(|n| n.to_string()))
+            // All arithmetic is done in 128 bits: neither the step nor the elements can
+            // overflow, whatever the bounds.
+            let signed_step = if start <= end {
+                step as i128
             } else {
-                // Iterate from start down to end by decrementing.
-                #[allow(clippy::cast_possible_wrap)]
-                let increment = increment as i64;
-                Box::new(
-                    std::iter::successors(Some(start), move |&n| {
-                        let next = n - increment;
-                        (next >= end).then_some(next)
-                    })
-                    .map(|n| n.to_string()),
-                )
-            }
+                -(step as i128)
+            };
+            let start = i128::from(start);
+            Box::new((0..count).map(move |i| (start + signed_step * (i as i128)).to_string()))
         }
 
         word::BraceExpressionMember::CharSequence {
@@ -61,24 +69,22 @@ fn expand_brace_expr_member(bem: word::BraceExpressionMember) -> Box<dyn Iterato
             end,
             increment,
         } => {
-            let mut increment = increment.unsigned_abs() as usize;
-            if increment == 0 {
-                increment = 1;
-            }
+            let step = increment.unsigned_abs().min(u64::from(u32::MAX)).max(1);
+            let (first, last) = (u64::from(u32::from(start)), u64::from(u32::from(end)));
+            let count = first.abs_diff(last) / step + 1;
+            let descending = first > last;
 
-            if start <= end {
-                Box::new((start..=end).step_by(increment).map(|c| c.to_string()))
-            } else {
-                // Iterate from start down to end by decrementing.
-                let increment = increment as u32;
-                Box::new(
-                    std::iter::successors(Some(start), move |&c| {
-                        let next = char::from_u32(c as u32 - increment)?;
-                        (next >= end).then_some(next)
-                    })
-                    .map(|c| c.to_string()),
-                )
-            }
+            Box::new((0..count).filter_map(move |i| {
+                let code = if descending {
+                    first - i * step
+                } else {
+                    first + i * step
+                };
+                u32::try_from(code)
+                    .ok()
+                    .and_then(char::from_u32)
+                    .map(|c| c.to_string())
+            }))
         }
 
         word::BraceExpressionMember::Child(elements) => {
